@@ -122,7 +122,7 @@ func (r *Run) keep(o *Obligation) bool {
 		return true
 	}
 	for _, t := range o.Tags {
-		if r.Active[t] {
+		if r.Active[t] || t == "*" {
 			return true
 		}
 	}
@@ -150,10 +150,17 @@ func (r *Run) Do(keys []string) int {
 		rep := &funcReport{Key: k}
 		var x *Exec
 		ncases := 1
+		var arity []int
 		for mask := 0; mask < ncases; mask++ {
 			x = newExec(r.W, fi, r.Active)
 			x.splitRet = r.Split
 			x.caseMask = mask
+			// decode the case number in the mixed radix given by the split arities
+			m := mask
+			for _, a := range arity {
+				x.caseIdx = append(x.caseIdx, m%a)
+				m /= a
+			}
 			clearFacts()
 			err := x.verifyFunc()
 			clearFacts()
@@ -164,12 +171,16 @@ func (r *Run) Do(keys []string) int {
 				break
 			}
 			if mask == 0 && x.nSplits > 0 {
-				if x.nSplits > 6 {
-					fmt.Fprintf(os.Stderr, "govc: %s: too many split clauses\n", k)
+				arity = x.splitArity
+				ncases = 1
+				for _, a := range arity {
+					ncases *= a
+				}
+				if ncases > 256 {
+					fmt.Fprintf(os.Stderr, "govc: %s: too many cases (%d)\n", k, ncases)
 					engineErr = true
 					break
 				}
-				ncases = 1 << x.nSplits
 			}
 			for _, o := range x.Obls {
 				if r.Only != "" && !strings.Contains(o.Name, r.Only) {
